@@ -12,7 +12,7 @@ Local Open Scope string_scope.
    object), using driver i yields the Job's declared settings resolved against i's own class and instance
    attributes ... *)
 Theorem C17_binding_value : forall decl evs i c s,
-  nget i (bs_drivers (fst (brun false (binit decl) evs))) = Some (c, s) ->
+  nget i (bs_drivers (fst (brun MCopy (binit decl) evs))) = Some (c, s) ->
   use_after decl evs i = Some (bind decl c s).
 Proof. exact binding_value. Qed.
 Print Assumptions C17_binding_value.
@@ -22,6 +22,76 @@ Theorem C17_binding_independent : forall decl evs i,
   use_after decl evs i = use_after decl (filter (concerns i) evs) i.
 Proof. exact binding_independent. Qed.
 Print Assumptions C17_binding_independent.
+
+(* ---- bound jobs that are KEPT.  `h = d_i.job` is an event of its own (BGet i h), separate from using the object
+   kept in h (BPrep h).  molli's semantics (Job.__get__ binds a fresh copy): a bound job is a VALUE fixed at the
+   moment it is obtained.  Whatever happens between obtaining and using -- other drivers created, reassigned, used,
+   THEIR jobs obtained and kept or used, more jobs obtained through the same driver, even driver i itself
+   reassigned -- using h yields exactly what using driver i at the moment of obtaining would have yielded ... *)
+Theorem C17_binding_held_fixed : forall decl evs1 i h evs2 b,
+  use_after decl evs1 i = Some b ->
+  forallb (fun ev => negb (obtains h ev)) evs2 = true ->
+  held_after decl (evs1 ++ BGet i h :: evs2) h = Some b.
+Proof. exact held_fixed. Qed.
+Print Assumptions C17_binding_held_fixed.
+
+(* ... which is bind(decl, class_i, instance_i) with the attributes driver i had when the job was obtained ... *)
+Theorem C17_binding_held_value : forall decl evs1 i h evs2 c s,
+  nget i (bs_drivers (fst (brun MCopy (binit decl) evs1))) = Some (c, s) ->
+  forallb (fun ev => negb (obtains h ev)) evs2 = true ->
+  held_after decl (evs1 ++ BGet i h :: evs2) h = Some (bind decl c s).
+Proof. exact held_value. Qed.
+Print Assumptions C17_binding_held_value.
+
+(* ... and depends on nothing but the events about driver i before the obtain: all other drivers and everything
+   after the obtain can be erased from the history. *)
+Theorem C17_binding_held_independent : forall decl evs1 i h evs2 b,
+  use_after decl evs1 i = Some b ->
+  forallb (fun ev => negb (obtains h ev)) evs2 = true ->
+  held_after decl (evs1 ++ BGet i h :: evs2) h = use_after decl (filter (concerns i) evs1) i
+  /\ held_after decl (evs1 ++ BGet i h :: evs2) h = held_after decl (filter (concerns i) evs1 ++ [BGet i h]) h.
+Proof. exact held_independent. Qed.
+Print Assumptions C17_binding_held_independent.
+
+(* the same for a job obtained through the class (`h = type(d_i).job`) *)
+Theorem C17_binding_held_fixed_cls : forall decl evs1 i h evs2 b,
+  usecls_after decl evs1 i = Some b ->
+  forallb (fun ev => negb (obtains h ev)) evs2 = true ->
+  held_after decl (evs1 ++ BGetCls i h :: evs2) h = Some b.
+Proof. exact held_fixed_cls. Qed.
+Print Assumptions C17_binding_held_fixed_cls.
+
+Theorem C17_binding_independent_cls : forall decl evs i,
+  usecls_after decl evs i = usecls_after decl (filter (concerns i) evs) i.
+Proof. exact binding_independent_cls. Qed.
+Print Assumptions C17_binding_independent_cls.
+
+Example C17_binding_held_nonvacuous :
+  let d1 := mk_settings (Some "sh") (Some 4%N) None (Some [("A", "1")]) in
+  let d2 := mk_settings (Some "bash") (Some 8%N) (Some 9%N) (Some [("B", "2")]) in
+  let evs1 := [BCreate 1 no_settings d1; BCreate 2 no_settings d2; BGet 2 7; BUse 2] in
+  let evs2 := [BGet 2 1; BSet 1 d2; BGet 1 2; BPrep 1; BUse 2; BGetCls 2 3] in
+  use_after no_settings evs1 1 = Some (mk_bound (Some "sh") 4 1000 [("A", "1")])
+  /\ forallb (fun ev => negb (obtains 0 ev)) evs2 = true
+  /\ held_after no_settings (evs1 ++ BGet 1 0 :: evs2) 0 = Some (mk_bound (Some "sh") 4 1000 [("A", "1")])
+  /\ held_after no_settings (evs1 ++ BGet 1 0 :: evs2) 2 = Some (mk_bound (Some "bash") 8 9 [("B", "2")])
+  /\ held_after no_settings (evs1 ++ BGet 1 0 :: evs2) 3 = Some (mk_bound None 1 1000 []).
+Proof. repeat split; reflexivity. Qed.
+
+(* The variant of __get__ that allocates ONE bound object per descriptor and refreshes it on every access hands the
+   same object to every holder: with two jobs held side by side the one obtained through driver 1 carries driver
+   2's executable, nprocs and environment; on histories that use every job at once it cannot be told from the
+   fresh copy (so such histories do not test it). *)
+Lemma C17_binding_shared_refuted :
+  nth 4 (snd (brun MShared (binit no_settings) shared_witness)) None
+  = Some (mk_bound (Some "bash") 8 1000 [("B", "2")])
+  /\ nth 4 (snd (brun MCopy (binit no_settings) shared_witness)) None
+  = Some (mk_bound (Some "sh") 4 1000 [("A", "1")]).
+Proof. exact shared_refuted. Qed.
+
+Lemma C17_binding_shared_invisible_when_immediate : forall evs st,
+  forallb immediate evs = true -> bs_held st = [] -> brun MShared st evs = brun MCopy st evs.
+Proof. exact shared_invisible_when_immediate. Qed.
 
 (* For a Job declared without settings of its own in a class without such attributes (all shipped drivers) the
    bound job carries the instance's executable, processor count (default 1), memory (default 1000) and environment. *)
@@ -34,9 +104,9 @@ Print Assumptions C17_binding_reflects_instance.
 (* The variant of __get__ that assigns to the shared descriptor (the code before the repair, DESIGN finding 19)
    breaks the property: the second driver is bound with the first one's executable, nprocs and environment. *)
 Lemma C17_binding_sticky_refuted :
-  nth 3 (snd (brun true (binit no_settings) sticky_witness)) None
+  nth 3 (snd (brun MSticky (binit no_settings) sticky_witness)) None
   = Some (mk_bound (Some "sh") 4 1000 [("B", "2"); ("A", "1")])
-  /\ nth 3 (snd (brun false (binit no_settings) sticky_witness)) None
+  /\ nth 3 (snd (brun MCopy (binit no_settings) sticky_witness)) None
   = Some (mk_bound (Some "bash") 8 1000 [("B", "2")]).
 Proof. exact sticky_refuted. Qed.
 
